@@ -8,8 +8,8 @@ CHECK = dict(
     level="model_checking",
     engine="timex",
     technique="exhaustive enumeration of all operation sequences (Add of 6-8 duties incl. shared deadlines, never-expiring and already-expired ones; "
-              "clock advances) up to a length bound against the real deadliner on virtual time, judged by a reference set model",
-    claim="every sequence over the alphabet {Add(A..H), advance 0.5s, advance 1s} up to length 6/5 (quick) and 8/7 (thorough), all map iteration "
+              "clock advances of 0.5s and 1s, a jump of 2.5s past two deadlines, and a 2s jump with an Add issued before the deadliner has reacted, both select orders) up to a length bound against the real deadliner on a fake clock, judged by a reference set model",
+    claim="every sequence over the alphabet {Add(A..H), advance 0.5s, advance 1s, jump 2.5s, jump 2s + simultaneous Add(A..D) (at most once)} up to length 5/4 (quick) and 6/5 (thorough), all map iteration "
           "orders for duties sharing a deadline; oracle: status of every Add, exactly-once report, never early, deadline order, nothing for late or "
           "never-expiring duties",
     trusted="testing/synctest virtual time; harness actions and deadlines never coincide in time (0.25s offset), so timer/Add races are explored "
